@@ -176,8 +176,10 @@ func ForwardUses(v ssa.Value) map[ssa.Instruction]bool {
 					for _, ins := range b.Instrs {
 						if u, ok := ins.(*ssa.UnOp); ok && u.Op == token.MUL {
 							if SameLoc(u.X, st.Addr) {
+								out[u] = true
 								visit(u)
 							} else if a, isAlloc := AddrRoot(st.Addr).(*ssa.Alloc); isAlloc && AddrRoot(u.X) == ssa.Value(a) {
+								out[u] = true
 								visit(u) // a part of the local object the value was stored into
 							}
 						}
